@@ -416,7 +416,7 @@ func runC42(c *Ctx) {
 			})
 			c.Ob("unhandled", name+"#unhandled-stream-closed", cl.Pos(), okMiss, "a stream with no handler is closed")
 		}
-		c.Floor(name+" close-on-miss sites", len(methodCalls(fn, false, "Close")), 1)
+		c.Ob("unhandled", name+"#closes-stream-on-miss", fn.Decl.Pos(), len(methodCalls(fn, false, "Close")) >= 1, "the dispatcher closes a stream nobody handles (otherwise the peer hangs on an open stream)")
 	}
 }
 
@@ -590,7 +590,7 @@ func runC47(c *Ctx) {
 	}
 	elem := pa.varOf(rs.Value)
 	var ap *ast.CallExpr
-	var ins *ast.AssignStmt
+	var inss []*ast.AssignStmt
 	ast.Inspect(rs.Body, func(n ast.Node) bool {
 		switch x := n.(type) {
 		case *ast.CallExpr:
@@ -600,13 +600,13 @@ func runC47(c *Ctx) {
 		case *ast.AssignStmt:
 			if len(x.Lhs) == 1 {
 				if ix, ok := x.Lhs[0].(*ast.IndexExpr); ok && pa.varOf(ix.Index) == elem {
-					ins = x
+					inss = append(inss, x)
 				}
 			}
 		}
 		return true
 	})
-	if ap == nil || ins == nil {
+	if ap == nil || len(inss) == 0 {
 		c.Failf("ParseAddresses: append / seen insertion not recognised (undecided)")
 	}
 	notSeen := factReq{"not seen before", func(g *Fn, fs *FactSet) bool {
@@ -660,7 +660,9 @@ func runC47(c *Ctx) {
 			})
 		}},
 	}
-	requireAt(c, "listen", "ParseAddresses#seen-updated-after-validation", pa, ins, "an address is remembered only after it was validated (a rejected duplicate must be rejected again)", append([]factReq{notSeen}, validated...)...)
+	for _, ins := range inss {
+		requireAt(c, "listen", "ParseAddresses#seen-updated-after-validation", pa, ins, "an address is remembered only after it was validated (a rejected duplicate must be rejected again)", append([]factReq{notSeen}, validated...)...)
+	}
 	requireAt(c, "listen", "ParseAddresses#append-after-dedup-and-validation", pa, ap, "an address is emitted only if it was not seen before and passed validation; the non-IP rejection excludes exactly the Fly host constant", append([]factReq{notSeen}, validated...)...)
 	// the entry's fields
 	okFields := false
